@@ -12,12 +12,11 @@ Definition w_savepoint : list step :=
 
 Lemma rollback_to_savepoint_refuted_proof :
   exists steps,
-    quirk_free minit steps = true /\
     t_0 (vis (m_db (mrun minit steps))) = [(1, 10); (2, 20)]%Z /\
     t_0 (svis (s_db (srun false sinit (with_verdicts minit steps)))) = [(1, 10)]%Z /\
     mtrace minit steps <> strace false sinit (with_verdicts minit steps).
 Proof.
-  exists w_savepoint. split; [vm_compute; reflexivity|]. split; [vm_compute; reflexivity|].
+  exists w_savepoint. split; [vm_compute; reflexivity|].
   split; [vm_compute; reflexivity|]. vm_compute. intros H. discriminate H.
 Qed.
 
@@ -31,33 +30,27 @@ Definition w_snapshot : list step :=
 
 Lemma fixed_snapshot_refuted_proof :
   exists steps,
-    no_rbto steps = true /\ quirk_free minit steps = true /\
+    no_rbto steps = true /\
     map (fun e => o_rows (snd e)) (skipn 6 (mtrace minit steps)) = [[]; [(2, 20)]]%Z /\
     map (fun e => o_rows (snd e)) (skipn 6 (strace true sinit (with_verdicts minit steps))) = [[]; []] /\
     mtrace minit steps <> strace true sinit (with_verdicts minit steps).
 Proof.
-  exists w_snapshot. split; [vm_compute; reflexivity|]. split; [vm_compute; reflexivity|].
+  exists w_snapshot. split; [vm_compute; reflexivity|].
   split; [vm_compute; reflexivity|]. split; [vm_compute; reflexivity|].
   vm_compute. intros H. discriminate H.
 Qed.
 
-(* -- 3. the duplicate-key test of INSERT does not see the transaction's own DELETE ----------------
-      with row 1 committed: DELETE 1; SELECT (empty); INSERT 1 fails with "key already exists"
-      and thereby cancels the transaction *)
+(* -- 3. (fixed by 62a15b5) the duplicate-key test of INSERT sees the transaction's own DELETE:
+      with row 1 committed, DELETE 1; SELECT (empty); INSERT 1; SELECT; COMMIT behaves as the spec -- *)
 Definition w_own_delete : list step :=
   [(I0, OInsert TA 1 10); (I0, OBegin false); (I0, ODelete TA (Some 1%Z) (Some 1%Z));
-   (I0, OSelect TA None None); (I0, OInsert TA 1 11)].
+   (I0, OSelect TA None None); (I0, OInsert TA 1 11); (I0, OSelect TA None None); (I0, OCommit)].
 
-Lemma own_delete_refuted_proof :
-  exists steps,
-    no_rbto steps = true /\
-    map (fun e => (o_rows (snd e), o_err (snd e))) (skipn 3 (mtrace minit steps)) = [([], false); ([], true)] /\
-    map (fun e => (o_rows (snd e), o_err (snd e))) (skipn 3 (strace false sinit (with_verdicts minit steps))) = [([], false); ([], false)] /\
-    mtrace minit steps <> strace false sinit (with_verdicts minit steps).
-Proof.
-  exists w_own_delete. split; [vm_compute; reflexivity|]. split; [vm_compute; reflexivity|].
-  split; [vm_compute; reflexivity|]. vm_compute. intros H. discriminate H.
-Qed.
+Example own_delete_then_insert :
+  map (fun e => (o_rows (snd e), o_err (snd e))) (skipn 3 (mtrace minit w_own_delete)) =
+    [([], false); ([], false); ([(1, 11)]%Z, false); ([], false)] /\
+  t_0 (vis (m_db (mrun minit w_own_delete))) = [(1, 11)]%Z.
+Proof. split; vm_compute; reflexivity. Qed.
 
 (* -- the premises of the partial theorems are satisfiable by a program that exercises
       two interleaved sessions, a rejected COMMIT, a failed statement, savepoints and RELEASE -- *)
@@ -68,7 +61,7 @@ Definition w_clean : list step :=
    (I1, OBegin false); (I1, OInsert TA 2 21); (I1, OSelect TB None None); (I2, OSelect TA None None)].
 
 Example premises_satisfiable :
-  no_rbto w_clean = true /\ quirk_free minit w_clean = true /\
+  no_rbto w_clean = true /\
   map (fun e => o_err (snd e)) (mtrace minit w_clean) =
     [false; false; false; false; false; false; false; false; false; false; true; false; true; false; false].
 Proof. repeat split; vm_compute; reflexivity. Qed.
